@@ -185,6 +185,11 @@ package stage
 //@   on return assert not-ready-is-parked: !result ==> called((*Stage).toWait) && lastarg((*Stage).toWait, 1) == pathjoin(s.rootDir, old(file.prev)) && lastarg((*Stage).toWait, 2) == file
 //@   on return assert ready-is-not-parked: result ==> !called((*Stage).toWait)
 //@   on return assert state-of-predecessor: called((*Stage).getFileState) ==> lastarg((*Stage).getFileState, 1) == pathjoin(s.rootDir, old(file.prev))
+//@   forbid call os.Stat label predecessor-name-never-reaches-the-file-system
+//@   forbid call os.Lstat label predecessor-name-never-reaches-the-file-system
+//@   forbid call os.Open label predecessor-name-never-reaches-the-file-system
+//@   forbid call os.ReadFile label predecessor-name-never-reaches-the-file-system
+//@   forbid call os.ReadDir label predecessor-name-never-reaches-the-file-system
 
 //@ func (*Stage).finalizeHandler
 //@   before call (*Stage).finalize assert finalize-needs-ready: called((*Stage).isFileReady) && lastret((*Stage).isFileReady, 0) && lastarg((*Stage).isFileReady, 1) == arg1
@@ -284,4 +289,21 @@ package stage
 //@   loop 1 backedge assert watermark-from-kept-entries-only: !(called(builtin.delete) && stored(cacheTime))
 //@   before call builtin.delete assert drops-only-aged-deliveries: exclusive(&s.cacheLock) && arg0 == s.cache && arg1 == cacheFile.path && cacheFile.state >= stateFinalized && (cacheFile.prev == "" || cacheFile.nextFinal) && age > cacheAgeLogged && !initer(stored(cacheTime))
 //@   before store cacheTime assert watermark-only-moves-down-in-the-pass: called(time.Now) && !initer(called(builtin.delete))
+//@   modifies everything
+
+// ---------------------------------------------------------------- no file-system effect before authorisation (C15) / no request-controlled paths (C14)
+
+// the constructor touches nothing on disk: the gatekeeper of a source is created before the request
+// is authorised, so a refused request must leave no trace
+//@ func New
+//@   forbid call os.MkdirAll label constructor-touches-nothing
+//@   forbid call os.Mkdir label constructor-touches-nothing
+//@   forbid call os.Create label constructor-touches-nothing
+//@   forbid call os.OpenFile label constructor-touches-nothing
+//@   forbid call os.WriteFile label constructor-touches-nothing
+//@   forbid call os.Remove label constructor-touches-nothing
+//@   forbid call os.RemoveAll label constructor-touches-nothing
+//@   forbid call os.Rename label constructor-touches-nothing
+//@   forbid call (*Stage).Recover label constructor-touches-nothing
+//@   forbid call (*Stage).clean label constructor-touches-nothing
 //@   modifies everything
